@@ -276,6 +276,18 @@ Theorem length_translate : forall (sq : Q -> Q) (t : xy) (g : geomT Q),
 Proof. intros sq t g Hsq. apply (length_translate_lemma sq Hsq t g). Qed.
 Print Assumptions length_translate.
 
+(* multiplying the square root by a non-zero constant multiplies Length and leaves Centroid
+   unchanged (this is what lets the correspondence driver evaluate the lineal formulas with
+   the integer-valued 2^80 * sqrt bracket) *)
+Theorem sqrt_scale_invariant : forall (sq : Q -> Q) (k : Q) (g : geomT Q),
+  ~ k == 0 ->
+  geom_length (fun q => k * sq q) g == k * geom_length sq g /\
+  oxy_eq (geom_centroid (fun q => k * sq q) g) (geom_centroid sq g).
+Proof.
+  intros sq k g Hk. split; [apply (geom_length_sqk sq k g)|apply (geom_centroid_sqk sq k Hk g)].
+Qed.
+Print Assumptions sqrt_scale_invariant.
+
 (* ------------------------------------------------------------------ Examples (non-vacuity, tightness) *)
 
 Definition v (x y : Z) : vtx Q := Build_vtx (inject_Z x) (inject_Z y) 7 (-3).
@@ -307,8 +319,9 @@ Example ex_centroid_coll :
 Proof. vm_compute. split; reflexivity. Qed.
 (* without the areal member the line decides: midpoint of (0,0)-(3,4), length 5 *)
 Example ex_centroid_coll_lineal :
-  (oxy_eq (geom_centroid ex_sq (GColl XY [GPoint (MkPoint XY (Some (v 100 100))); GLine (ln [(0,0);(3,4)]%Z); GPoly (MkPoly XY [])]))
-         (Some (3 # 2, 2)) /  geom_length ex_sq ex_coll == 5.
+  oxy_eq (geom_centroid ex_sq (GColl XY [GPoint (MkPoint XY (Some (v 100 100))); GLine (ln [(0,0);(3,4)]%Z); GPoly (MkPoly XY [])]))
+         (Some (3 # 2, 2)) /\
+  geom_length ex_sq ex_coll == 5.
 Proof. vm_compute. repeat split; reflexivity. Qed.
 (* hypotheses are satisfiable by these values *)
 Example ex_hyps : geom_closed ex_coll = true /\ hdim ex_coll = 2%nat /\ is_empty ex_coll = false.
